@@ -1,3 +1,4 @@
+import MdsVerif.Gen.MlinkQueue
 /-!
 # Model of `mlink.List`, `mlink.Cursor`, `mlink.Queue` (mlink/{mlink,list,queue}.go)
 
@@ -104,7 +105,10 @@ def remove (h : Heap) (p : Nat) : Res (Heap × Int) :=
   let t := tgt h p
   let val := h.val t
   let nx := h.link t
-  .ok ((h.setLink t (some t)).setLink p nx, val)
+  -- `c.pred.link.link = c.pred.link`: unconditional in list.go (`Gen.MlinkQueue.removeSelfLinksAlways`;
+  -- the other recognised shape guards it with `if next != nil`)
+  let h1 := if Gen.MlinkQueue.removeSelfLinksAlways || nx.isSome then h.setLink t (some t) else h
+  .ok (h1.setLink p nx, val)
 
 /-- `entry.invalidate`: `for e != nil { next := e.link; e.link = e; e = next }` -/
 def invalidate : Nat → Heap → Option Nat → Res Heap
@@ -114,8 +118,13 @@ def invalidate : Nat → Heap → Option Nat → Res Heap
 
 /-- `Truncate` as it is now (after the F7 repair): `c.pred.checkValid().link.invalidate(); c.pred.link = nil` -/
 def truncate (h : Heap) (p : Nat) : Res Heap :=
-  if invalid h p then .panic h p else
-  (invalidate (h.size + 1) h (h.link p)).bind fun h1 => .ok (h1.setLink p none)
+  if Gen.MlinkQueue.truncateInvalidatesFirst then
+    if invalid h p then .panic h p else
+    (invalidate (h.size + 1) h (h.link p)).bind fun h1 => .ok (h1.setLink p none)
+  else
+    -- the other recognised order, `c.pred.link = nil; c.pred.checkValid().link.invalidate()`: after the cut the
+    -- entry is not self-linked and there is nothing left to invalidate
+    .ok (h.setLink p none)
 
 /-- `Truncate` before the repair (no `checkValid`), with explicit fuel — kept for the F7 regression theorem -/
 def truncateUnfixed (fuel : Nat) (h : Heap) (p : Nat) : Res Heap :=
@@ -310,7 +319,7 @@ def Q.backPred (q : Q) : Nat := match q.back with | none => 0 | some p => p
 /-- `Queue.Add` -/
 def qadd (q : Q) (v : Int) : Q × Out :=
   match add q.h q.backPred [v] with
-  | .ok (h', p') => ({ h := h', back := some p', size := q.size + 1 }, .unit)
+  | .ok (h', p') => ({ h := h', back := some p', size := Gen.MlinkQueue.addSize q.size }, .unit)
   | .panic h' p' => ({ q with h := h', back := some p' }, .panicInvalid)
   | .hang => (q, .hang)
 
@@ -329,13 +338,14 @@ def qpop (q : Q) : Q × Out :=
   | .panic _ _ => (q, .panicInvalid)
   | .hang => (q, .hang)
   | .ok (h', _) =>
-    let q' : Q := { q with h := h', size := q.size - 1 }
-    (if isEmpty h' then { q' with back := some 0 } else q', .pair out true)
+    let q' : Q := { q with h := h', size := Gen.MlinkQueue.popSize q.size }
+    -- `if q.list.IsEmpty() { q.back = q.list.cfirst() }`
+    (if Gen.MlinkQueue.popResets (isEmpty h') q'.size then { q' with back := some 0 } else q', .pair out true)
 
 /-- `Queue.Clear` -/
 def qclear (q : Q) : Q × Out :=
   match clear q.h with
-  | .ok h' => ({ h := h', back := some 0, size := 0 }, .unit)
+  | .ok h' => ({ h := h', back := some 0, size := Gen.MlinkQueue.clearSize }, .unit)
   | .panic h' _ => ({ q with h := h' }, .panicInvalid)
   | .hang => (q, .hang)
 
